@@ -32,6 +32,7 @@ class Driver(object):
         self.max_drops = max_drops
         self.dropall = dropall
         self.client_versions = client_versions
+        self.reopen_after_close = reopen_after_close   # a second open on a connection that already closed (the server accepts it)
 
     def enabled(self, world, ghost, counters):
         evs = []
@@ -77,6 +78,9 @@ class Driver(object):
                     if m not in mids:
                         mids.append(m)
             if "open" in K and not g.holding and g.open_mid is None and not g.did_close:
+                for m in mids:
+                    evs.append(("open", c, m))
+            elif "open" in K and self.reopen_after_close and g.did_close and not g.holding:
                 for m in mids:
                     evs.append(("open", c, m))
             if "add" in K and g.holding and g.n_add < self.max_adds:
